@@ -6,6 +6,7 @@ package main
 import (
 	"fmt"
 	"go/types"
+	"os"
 	"sort"
 	"strings"
 
@@ -183,6 +184,7 @@ func (m *Machine) verifyFunction(key string, fc *FuncContract, opts verifyOpts) 
 	m.explore(c, func(c *Config, results []Value) {
 		m.atReturn(c, fn, fc, results, opts)
 	})
+	m.reachObligations(fn)
 	return
 }
 
@@ -209,6 +211,9 @@ func inputTerms(m *Machine, st *State, v Value) []Term {
 }
 
 func (m *Machine) atReturn(c *Config, fn *ssa.Function, fc *FuncContract, results []Value, opts verifyOpts) {
+	if os.Getenv("GOVC_TRACE") != "" {
+		fmt.Fprintf(os.Stderr, "TRACE return of %s in block %d (%s) path %d dead=%v pc=%d\n", fn.Name(), c.top.block.Index, c.top.block.Comment, m.cur.paths, c.st.dead, len(c.st.pc))
+	}
 	if fc == nil {
 		return
 	}
@@ -259,6 +264,17 @@ func (m *Machine) atReturn(c *Config, fn *ssa.Function, fc *FuncContract, result
 	m.cur.curResults = results
 	m.regionEnv = env
 	defer func() { m.cur.curResults = nil; m.regionEnv = nil }()
+	// vacuity guard: remember the path conditions per return site
+	if !c.st.dead {
+		if ret, ok := c.top.block.Instrs[len(c.top.block.Instrs)-1].(*ssa.Return); ok {
+			if m.cur.retPCs == nil {
+				m.cur.retPCs = map[*ssa.Return][][]Term{}
+			}
+			if len(m.cur.retPCs[ret]) < 600 {
+				m.cur.retPCs[ret] = append(m.cur.retPCs[ret], append([]Term(nil), c.st.pc...))
+			}
+		}
+	}
 	if m.concord {
 		ob := &Obligation{Fn: m.cur.key, Kind: "path-cover", PC: append([]Term(nil), c.st.pc...), Goal: TTrue, ExpectSat: true,
 			Abstract: c.st.abstract, Path: m.cur.paths, Inputs: m.cur.inputs, Ctx: m.cur, Results: results, RetState: c.st}
@@ -554,5 +570,27 @@ func (m *Machine) applySets(env *Env, sets []GhostSet, st *State) {
 			continue
 		}
 		st.ghost[gs.Ghost] = m.asSort(env, cv, s)
+	}
+}
+
+// reachObligations: every return statement that some explored path reaches must be
+// reachable under the assumed contracts and invariants (guard against vacuous proofs:
+// contradictory assumptions make every obligation behind them trivially "discharged").
+func (m *Machine) reachObligations(fn *ssa.Function) {
+	if m.cur == nil || len(m.cur.retPCs) == 0 {
+		return
+	}
+	var rets []*ssa.Return
+	for r := range m.cur.retPCs {
+		rets = append(rets, r)
+	}
+	sort.Slice(rets, func(i, j int) bool { return rets[i].Pos() < rets[j].Pos() })
+	for i, r := range rets {
+		var alts []Term
+		for _, pc := range m.cur.retPCs[r] {
+			alts = append(alts, And(pc...))
+		}
+		m.obligs = append(m.obligs, &Obligation{Fn: m.cur.key, Kind: "reach", Label: fmt.Sprintf("return%d", i+1), Props: nil,
+			PC: []Term{Or(alts...)}, Goal: TTrue, ExpectSat: true, Site: m.site(r)})
 	}
 }
